@@ -173,7 +173,7 @@ class HCTAd(Adapter):
 
     def gen_params(self, rnd, T):
         p = {"nu": rnd.choice([1.0, 0.5, 2.0, 1.0]), "rho": rnd.choice([0.5, 0.25, 0.75, 0.6]),
-             "c": rnd.choice([0.1, 0.05, 0.2, 0.5, 1.0]), "delta": rnd.choice([0.01, 0.1, 0.001, 0.5])}
+             "c": rnd.choice([0.1, 0.05, 0.2, 0.5, 1.0]), "delta": rnd.choice([0.01, 0.1, 0.001, 0.5, 0.9, 0.99])}
         if self.variance:
             p["bound"] = rnd.choice([1.0, 1.0, 2.0, 0.5])
         return p
